@@ -180,6 +180,42 @@ Proof.
     exfalso. rewrite sim_psf_rows, sim_psf_cols in H. vm_compute in H. destruct H as [H _]. discriminate H.
 Qed.
 
+(* ---- T9: one-hot kernels (a single entry c at cell ab: unit shifts, basis kernels of the operator on the kernel side).
+        [one_hot K ab c]: ab is a cell of K, K[ab] = c, every other cell is zero.  The true convolution is then the image
+        shifted by (centre - ab) and scaled by c, at EVERY position ab -- so is the whole-frame method
+        (Kernel2D.convolved_array(_with_mask)_from) and the masked Convolver; and a unit one-hot kernel leaves every image
+        unchanged iff its entry sits at the centre ("one non-zero entry and sum 1" does not mean "no blur"). *)
+Theorem C03_one_hot_kernel_is_shift : forall (N : px -> R) (K : list (list R)) ab c t,
+  @one_hot ROps K ab c -> @conv_full ROps N K t = (c * N (@shift_src ROps K t ab))%R.
+Proof. exact conv_full_one_hot. Qed.
+Theorem C03_whole_frame_one_hot : forall m (g : list (list R)) (K : list (list R)) ab c,
+  oddb (rows K) && oddb (cols K) = true -> @one_hot ROps K ab c ->
+  @convolved_array_checked ROps m g K =
+  Ok (map (fun t => (c * @img_fun ROps g (@shift_src ROps K t ab))%R) (unmasked m)).
+Proof. exact whole_one_hot. Qed.
+Theorem C03_convolver_one_hot : forall m (K : list (list R)) cv (img bimg : list R) ab c,
+  rectb m = true -> @convolver_init ROps m K = Ok cv ->
+  length img = length (unmasked m) -> length bimg = length (unmasked (bmask cv)) -> @one_hot ROps K ab c ->
+  @convolve ROps cv img bimg =
+  map (fun t => (c * @combined ROps m (bmask cv) img bimg (@shift_src ROps K t ab))%R) (unmasked m).
+Proof. exact convolve_one_hot. Qed.
+Theorem C03_unit_kernel_no_blur_iff_centred : forall (K : list (list R)) ab,
+  @one_hot ROps K ab 1%R ->
+  ((forall (N : px -> R) t, @conv_full ROps N K t = N t) <-> ab = (rows K / 2, cols K / 2)).
+Proof. exact unit_kernel_identity_iff_centred. Qed.
+(* non-vacuity: the 3x3 kernel with the 1 at [1,2] (off centre) is one-hot; with ex_m the convolver exists *)
+Definition ex_shift : list (list R) := [[0; 0; 0]; [0; 0; 1]; [0; 0; 0]]%R.
+Example C03_one_hot_satisfiable :
+  @one_hot ROps ex_shift (1, 2) 1%R /\ oddb (rows ex_shift) && oddb (cols ex_shift) = true /\
+  (1, 2) <> (rows ex_shift / 2, cols ex_shift / 2) /\ exists cv, @convolver_init ROps ex_m ex_shift = Ok cv.
+Proof.
+  split; [|split; [vm_compute; reflexivity|split; [vm_compute; discriminate|]]].
+  - exact one_hot_example.
+  - pose proof (C03_convolver_init_cases ex_m ex_shift) as H.
+    destruct (@convolver_init ROps ex_m ex_shift) as [cv|e]; [now exists cv|].
+    exfalso. vm_compute in H. destruct H as [H _]. discriminate H.
+Qed.
+
 Print Assumptions C03_mask_index_array_is_slim_position.
 Print Assumptions C03_convolve_is_conv_full. Print Assumptions C03_convolve_spec_form.
 Print Assumptions C03_blurring_mask_is_region. Print Assumptions C03_no_blurring_is_conv_of_masked_image.
@@ -190,3 +226,5 @@ Print Assumptions C03_convolver_init_cases. Print Assumptions C03_whole_frame_ag
 Print Assumptions C03_whole_frame_method. Print Assumptions C03_whole_frame_method_agrees.
 Print Assumptions C03_simulated_data_is_whole_frame_convolution. Print Assumptions C03_simulated_masked_agrees.
 Print Assumptions C03_simulated_zero_residual.
+Print Assumptions C03_one_hot_kernel_is_shift. Print Assumptions C03_whole_frame_one_hot.
+Print Assumptions C03_convolver_one_hot. Print Assumptions C03_unit_kernel_no_blur_iff_centred.
